@@ -487,13 +487,15 @@ func (wg *WeightedAuthorizationModelGraph) calculateNodeWeightWithMixedStrategy(
 		return fmt.Errorf("%w: %s node does not have any terminal type to reach to", ErrInvalidModel, node.uniqueLabel)
 	}
 
-	for idx, edge := range edges {
-		for key, value := range edge.weights {
+	// the subtracted side is the last operand, which can be drawn with several edges (see operandWeights)
+	operands := operandWeights(edges)
+	for idx, operand := range operands {
+		for key, value := range operand {
 			if _, ok := weights[key]; !ok {
-				if idx != len(edges)-1 {
-					// This is the A edge.  We take the max weight of all key
+				if idx != len(operands)-1 {
+					// This is the A operand.  We take the max weight of all key
 					weights[key] = value
-				} // otherwise, B edge requires weight to be present in A. Otherwise, we will ignore.
+				} // otherwise, B operand requires weight to be present in A. Otherwise, we will ignore.
 			} else {
 				weights[key] = int(math.Max(float64(weights[key]), float64(value)))
 			}
